@@ -21,10 +21,12 @@ IMPORTS = "From Coq Require Import String.\nFrom PV Require Import Lib.Common Mo
 SHARD = 40
 LEVEL_TEXT = ("Coq theorems over an exact-rational executable model of G_E_Phenotyping.phenotype (draw consumption order, env-major "
               "block concatenation, label columns incl. the generated TaxonNN/TraitN names), set_h2/set_H2 and "
-              "MeanPhenotypicBreedingValue.estimate (sorted group-by-mean with null group labels kept as keys, last-wins hash join onto the genotype order, missing rows): "
+              "MeanPhenotypicBreedingValue.estimate (sorted group-by-mean with null group labels kept as keys; with a genotype matrix group-by on the taxon label alone and hash join onto the genotype order, missing rows), "
+              "the nenv setter's re-broadcast of a uniform stored nrep array and phenotype()'s refusal of an nrep array shorter than nenv: "
               "one record per (env, rep, taxon) cell with that taxon's labels; zero noise gives the true genotypic value; heritability "
               "calibration var/(var+var_err) = h2; group means are arithmetic means; the estimate is invariant under every permutation "
-              "of the phenotype rows; output aligned to the genotype order with absent taxa missing. The model is tied to the code "
+              "of the phenotype rows; output aligned to the genotype order, every phenotyped taxon carrying the mean of all of its records whatever its group labels, absent taxa missing; "
+              "every one of the nenv environments in force at the call is simulated (also after nenv was reassigned). The model is tied to the code "
               "by evaluating it inside Coq against the implementation's outputs on generated trials/tables")
 LEVEL_NOTE = ("trusted: Coq kernel + vm_compute; pandas groupby/mean, numpy matmul/var and the scale/unscale round trip of the breeding "
               "value matrices are compared within 2^-30 relative tolerance against the exact rational (summation order not modelled); "
@@ -33,19 +35,19 @@ LEVEL_NOTE = ("trusted: Coq kernel + vm_compute; pandas groupby/mean, numpy matm
               "the tie to the code is differential on generated inputs")
 TECHNIQUE = "Coq proof over an executable exact-rational model; in-Coq vm_compute correspondence with the implementation; fixed-seed statistical monitor"
 RULE = ("case = trial (phased genotypes n in 1..12 incl. 10/11 for label widths, labels absent/unsorted/duplicated, groups absent/present, "
-        "additive model with 1-2 fixed effects, nenv 1..3 (in 12% reassigned after construction), nrep scalar or per-environment, each variance None/scalar/array/zero, dyadic "
+        "additive model with 1-2 fixed effects, nenv 1..3 (in 15% reassigned after construction to 1..nenv+2, for integer and array nrep: re-broadcast, truncation and refusal; 7 such designs always present), nrep scalar or per-environment, each variance None/scalar/array/zero, dyadic "
         "scripted normal draws, optional set_h2/set_H2 incl. h2=1 and an invalid target, then estimate with/without group column, trait "
         "subset/reorder, dropped rows, row permutation, genotype matrix absent/same/permuted+extra+duplicate taxa/without labels) or table "
         "(arbitrary records: taxon in several groups, null groups, 1..4 records per taxon) or monitor (fixed-seed real generator); "
         "all from one PRNG; non-trivial = >= 2 taxa, >= 2 records for some taxon and a non-identity row permutation; distinct by SHA-256 of the case")
-TRUSTED = ["pandas DataFrame.groupby(sort=True, dropna=True).agg(mean) (modelled as sorted distinct keys + arithmetic mean, compared in tolerance regime T)",
+TRUSTED = ["pandas DataFrame.groupby(sort=True, dropna=False).agg(mean) (modelled as sorted distinct keys + arithmetic mean, compared in tolerance regime T)",
            "numpy.random.Generator.multivariate_normal for diagonal covariance (scripted as mean + z*sqrt(var)); distributional convergence only monitored",
            "DenseBreedingValueMatrix.from_numpy/unscale round trip (property C15) within 2^-30 relative",
            "DenseAdditiveLinearGenomicModel.gegv/gebv/var_A/var_G are modelled as Z@u_a + (beta[0] + mean-weighted other fixed effects) and population variance"]
 ASSUMPTIONS = ["trait values finite; taxa labels printable ASCII strings; variances are squares of dyadic standard deviations in scripted cases",
-               "alignment theorem needs: no group column, or no taxon with records under two group labels, a null label counting as one (otherwise finding C14-join-ignores-group)",
                "without a genotype matrix a null group label is exported by to_numpy(dtype=int) as INT64_MIN (numpy NaN->int64 cast on x86-64, RuntimeWarning only): modelled as such",
-               "all nenv environments are simulated only if nenv was not raised after nrep was stored (otherwise finding C14-stale-nrep-after-nenv)"]
+               "a stored nrep array whose entries are all equal is indistinguishable from a broadcast integer: after nenv is reassigned it is re-broadcast; "
+               "a non-uniform array longer than the new nenv is used by its first nenv entries (zip), a shorter one is refused"]
 
 LABELS = ["b", "a", "c", "Z", "aa", "a1", "B", "ab", "T10", "T9", "x_y", "k"]
 TRAITS = ["y", "x", "w2", "Yld", "w10"]
@@ -62,6 +64,19 @@ def _sd(rng, t, zero=False):
     if zero: return 0.0 if k < 0.6 else [0.0] * t
     if k < 0.5: return rng.choice(SDS)
     return [rng.choice(SDS) for _ in range(t)]
+
+def _design(case):
+    """the design the property speaks about: (nenv in force at the call, replicate count of each of these environments).
+    An integer nrep counts for every environment; so does an array whose entries are all equal (the library stores an
+    integer nrep as such an array); otherwise environment e has the e-th entry, and when an environment has no entry
+    the counts are None: no trial satisfies the property, the call has to refuse."""
+    nenv = case["nenv_set"] if case.get("nenv_set") is not None else case["nenv"]
+    nrep = case["nrep"]
+    if isinstance(nrep, int): return nenv, [nrep] * nenv
+    nrep = list(nrep)
+    if len(nrep) >= nenv: return nenv, nrep[:nenv]
+    if all(x == nrep[0] for x in nrep): return nenv, [nrep[0]] * nenv
+    return nenv, None
 
 def _est(rng, nrows, t, taxa, taxa_grp, force_gt=None):
     """estimate configuration"""
@@ -94,7 +109,7 @@ def _est(rng, nrows, t, taxa, taxa_grp, force_gt=None):
     if rng.random() < 0.04: est["missing_col"] = True
     return est
 
-def _trial(rng, n=None, zero=None, small=False, auto=False):
+def _trial(rng, n=None, zero=None, small=False, auto=False, design=None):
     m = rng.choice([1, 2, 2, 2, 4])
     if n is None: n = rng.choice([1, 1, 2, 2, 3, 3, 4, 5, 6]) if not small else rng.randint(1, 3)
     p = rng.randint(1, 4); t = rng.randint(1, 3)
@@ -112,13 +127,16 @@ def _trial(rng, n=None, zero=None, small=False, auto=False):
     trait = None if rng.random() < 0.25 else rng.sample(TRAITS, t)
     nenv = rng.choice([1, 1, 2, 2, 3])
     nrep = rng.randint(1, 3) if rng.random() < 0.5 else [rng.randint(1, 3) for _ in range(nenv)]
+    if design is not None: nenv, nrep = design[0], design[1]
     if zero is None: zero = rng.random() < 0.15
     case = {"kind": "trial", "geno": geno, "taxa": taxa, "taxa_grp": taxa_grp, "beta": beta, "u": u, "trait": trait,
             "nenv": nenv, "nrep": nrep, "sd_env": _sd(rng, t, zero), "sd_rep": _sd(rng, t, zero), "sd_err": _sd(rng, t, zero)}
-    reps = [nrep] * nenv if isinstance(nrep, int) else nrep
-    if rng.random() < 0.12:                                   # nenv reassigned after construction (nrep attribute is not rebuilt)
-        case["nenv_set"] = rng.randint(1, nenv + 2) if isinstance(nrep, int) else rng.randint(1, nenv)
-        reps = reps[:case["nenv_set"]]
+    if design is not None: case["nenv_set"] = design[2]
+    elif rng.random() < 0.15:                                 # nenv reassigned after construction
+        case["nenv_set"] = rng.randint(1, nenv + 2)
+    _, reps = _design(case)
+    if reps is None:                                          # the call must refuse; draws as zip() truncation would consume them
+        reps = list(nrep)
     draws = []
     for e in range(len(reps)):
         draws.append([_grid(rng, 3, 4) for _ in range(t)])
@@ -134,7 +152,6 @@ def _trial(rng, n=None, zero=None, small=False, auto=False):
         v = rng.choice(vals) if rng.random() < 0.5 else [rng.choice(vals) for _ in range(t)]
         case["h2"] = {"which": rng.choice(["h2", "H2"]), "val": v}
     case["est"] = _est(rng, n * sum(reps), t, taxa, taxa_grp)
-    if case.get("nenv_set", 0) > nenv: case["est"]["grp"] = False
     return case
 
 def _table(rng, weird=True):
@@ -180,9 +197,13 @@ def gen_cases(rng, tier):
     # corners: single taxon / single env / label widths at 1, 9, 10, 11 taxa, everything zero
     for n in (1, 2, 9, 10, 11):
         cases.append(_trial(rng, n=n, zero=(n % 2 == 0), auto=True))
+    # nenv reassigned after construction: integer / uniform array re-broadcast (raised, lowered), non-uniform array truncated, refused
+    for design in ((1, 2, 3), (3, 1, 1), (2, [2, 2], 4), (3, [1, 2, 3], 2), (2, [1, 2], 3), (2, [2, 1], 4), (1, [3], 2)):
+        cases.append(_trial(rng, small=True, design=design))
     if not quick:
         c = _trial(rng, n=100, zero=True, auto=True); c["nenv"] = 1; c["nrep"] = 1
         t = len(c["u"][0]); c["draws"] = [[0.0] * t, [0.0] * t, [0.0] * (100 * t)]
+        c.pop("nenv_set", None)
         c["est"] = _est(rng, 100, t, None, c["taxa_grp"], force_gt=0.0); c["est"]["drop"] = []; cases.append(c)
     for _ in range(170 if quick else 6000):
         cases.append(_trial(rng))
@@ -325,7 +346,10 @@ def run_impl(case):
     out["var_set"] = [[float(x).hex() for x in a] for a in (pt.var_env, pt.var_rep, pt.var_err)]
     out["nrep_attr"] = [int(x) for x in pt.nrep]
     geno_before = geno.copy()
-    df = pt.phenotype(pg)
+    df = _try(lambda: pt.phenotype(pg))
+    if isinstance(df, dict):                                  # phenotype() raised: an observable
+        out["df"] = df
+        return out
     out["df"] = _canon_df(df)
     out["left"] = len(rng.q["normal"])
     out["requests"] = [list(x[1]) for x in rng.log]
@@ -484,12 +508,18 @@ def pred(case, out):
         _pred_est(case, out, bad); return _dedupe(bad)
     geno = case["geno"]; n = len(geno[0]); t = len(case["u"][0])
     gv = _truth(case)
-    nenv = case["nenv_set"] if case.get("nenv_set") is not None else case["nenv"]     # the number of environments in force at the call
-    reps = [case["nrep"]] * nenv if isinstance(case["nrep"], int) else list(case["nrep"])[:nenv]
+    nenv, reps = _design(case)                         # the number of environments in force at the call, their replicate counts
+    d = out["df"]
+    if reps is None:
+        if "exc" not in d: bad.append("phenotype(): returned %d records although %d environments have no replicate count (nenv=%d, nrep=%r)"
+                                      % (d["nrow"], nenv - len(case["nrep"]), nenv, case["nrep"]))
+        elif d["exc"] != "ValueError": bad.append("phenotype() raised %s: %s" % (d["exc"], d["msg"]))
+        return bad
+    if "exc" in d: return ["phenotype() raised %s: %s" % (d["exc"], d["msg"])]
+    if [int(x) for x in out["nrep_attr"]][:nenv] != reps: bad.append("stored nrep %r does not give the replicate counts %r of the %d environments" % (out["nrep_attr"], reps, nenv))
     taxa = case["taxa"] if case["taxa"] is not None else _autolabels("Taxon", n)
     grp = case["taxa_grp"]
     tnames = case["trait"] if case["trait"] is not None else _autolabels("Trait", t)
-    d = out["df"]
     # --- one record per taxon, environment and replicate, carrying the taxon's labels
     if d["cols"] != ["taxa", "taxa_grp", "env", "rep"] + tnames: bad.append("phenotype columns %r" % d["cols"])
     cells = [(e + 1, r + 1) for e in range(nenv) for r in range(reps[e])]
@@ -566,49 +596,15 @@ def _dedupe(bad):
     return seen[:10]
 
 # ------------------------------------------------------------------ known findings
-def _defect_semantics(case, out):
-    """re-computation of estimate() WITH the known defect (join by label only, the last group -- null label last -- wins):
-    used only to recognise a failure as exactly that pattern"""
-    rows, tnames = _base_table(case, out)
-    sub = [rows[i] for i in _kept(case, rows)]
-    est = case["est"]; tr = est["traits"]; tix = [tr] if isinstance(tr, int) else list(tr)
-    if not est["grp"] or est["gt"] is None: return None
-    keys = sorted(set((r[0], r[1]) for r in sub), key=_ksort)
-    means = {k: [sum(r[2][j] for r in sub if (r[0], r[1]) == k) / sum(1 for r in sub if (r[0], r[1]) == k) for j in tix] for k in keys}
-    last = {}
-    for k in keys: last[k[0]] = k
-    return [means[last[x]] if x in last else None for x in est["gt"]["taxa"]]
-
 def classify(case, out, clauses):
-    if not clauses or case["kind"] == "monitor" or "exc" in out: return None
-    if any(c.startswith("phenotype(): ") for c in clauses):
-        # nenv raised after construction with a scalar nrep: the stored nrep array is stale, only the first environments are simulated
-        if len(clauses) != 1 or case["kind"] != "trial" or not isinstance(case["nrep"], int): return None
-        if case.get("nenv_set", 0) <= case["nenv"]: return None
-        n = len(case["geno"][0])
-        if out["df"]["nrow"] != n * case["nrep"] * case["nenv"] or sorted(set(out["df"]["env"])) != list(range(1, case["nenv"] + 1)): return None
-        return "C14-stale-nrep-after-nenv"
-    if not all(c.startswith("bvjoin ") for c in clauses): return None
-    est = case["est"]
-    if not est["grp"] or est["gt"] is None or est["gt"]["taxa"] is None or est.get("missing_col"): return None
-    rows, _ = _base_table(case, out)
-    sub = [rows[i] for i in _kept(case, rows)]
-    groups = {}
-    for r in sub: groups.setdefault(r[0], set()).add(r[1])          # a null label counts as a label of its own
-    if not any(len(g) > 1 for g in groups.values()): return None
-    want = _defect_semantics(case, out)
-    for name in ("bv", "bv_perm"):
-        o = out["est"][name]
-        if "exc" in o or len(o["mat"]) != len(want): return None
-        for got, w in zip(o["mat"], want):
-            if w is None:
-                if any(v is not None for v in got): return None
-            elif any(v is None or not _close(_fh(v), x) for v, x in zip(got, w)): return None
-    return "C14-join-ignores-group"
+    """no defect of this property is excused any more (C14-join-ignores-group, C14-stale-nrep-after-nenv,
+    C14-short-nrep-fewer-environments and C14-null-group-drops-records are repaired; their witnesses are re-run as
+    `fixed` entries of known_findings.d/C14.json)"""
+    return None
 
 # ------------------------------------------------------------------ evidence helpers
 def nontrivial(case, out):
-    if case["kind"] == "monitor" or "exc" in out: return False
+    if case["kind"] == "monitor" or "exc" in out or "exc" in out.get("df", {}): return False
     rows, _ = _base_table(case, out)
     sub = [rows[i] for i in _kept(case, rows)]
     from collections import Counter
@@ -627,7 +623,10 @@ def describe(case, out):
         d["ntaxa"] = "1" if n == 1 else ("2-6" if n <= 6 else "7+")
         d["labels"] = "auto" if case["taxa"] is None else ("dup" if len(set(case["taxa"])) < n else "unique")
         d["groups"] = case["taxa_grp"] is not None
-        d["nenv"] = case["nenv"]; d["nenv_reassigned"] = case.get("nenv_set") is not None; d["nrep_form"] = "scalar" if isinstance(case["nrep"], int) else "array"
+        d["nenv"] = case["nenv"]; d["nrep_form"] = "scalar" if isinstance(case["nrep"], int) else "array"
+        ns = case.get("nenv_set")
+        d["nenv_reassigned"] = "no" if ns is None else ("same" if ns == case["nenv"] else ("lowered" if ns < case["nenv"] else "raised"))
+        d["refused"] = "exc" in out.get("df", {})
         z = lambda s: s is None or (s == 0.0 if not isinstance(s, list) else all(x == 0.0 for x in s))
         d["zero_noise"] = z(case["sd_env"]) and z(case["sd_rep"]) and z(case["sd_err"])
         d["h2"] = "none" if case.get("h2") is None else case["h2"]["which"]
@@ -671,24 +670,29 @@ def emit_case(case, out):
         return "(" + "\n   && ".join(parts) + ")"
     geno = case["geno"]; m, n, p = len(geno), len(geno[0]), len(geno[0][0]); t = len(case["u"][0])
     d = out["df"]
-    if any(v is None for r in d["vals"] for v in r) or any(x is None for x in d["taxa"] + d["env"] + d["rep"]): return "false"
+    refused = "exc" in d
+    if not refused and (any(v is None for r in d["vals"] for v in r) or any(x is None for x in d["taxa"] + d["env"] + d["rep"])): return "false"
     taxa = _optl(case["taxa"], E.s); grp = _optl(case["taxa_grp"], E.z); trait = _optl(case["trait"], E.s)
     head = ("let dos := dosage %d %d %s in\n  let u := %s in let beta := %s in\n  let gvm := gv %d dos u beta in\n"
             "  let taxa := %s in let grp := %s in let trait := %s in\n  let tnames := labels_or_auto \"Trait\"%%string %d trait in\n"
             % (n, p, E.lst3(geno, E.z), E.lst2(case["u"], _q), E.lst2(case["beta"], _q), t, taxa, grp, trait, t))
     nrep = "(NScalar %d)" % case["nrep"] if isinstance(case["nrep"], int) else "(NArr %s)" % E.lst(case["nrep"], E.nat)
-    g = d.get("taxa_grp", [None] * d["nrow"])
-    irows = [E.tup(E.s(d["taxa"][i]), E.opt(g[i], E.z), E.z(d["env"][i]), E.z(d["rep"][i]), E.lst(d["vals"][i], _qh)) for i in range(d["nrow"])]
     sds = ["(var_vec %d %s)" % (t, _vararg(case[k], False)) for k in ("sd_env", "sd_rep", "sd_err")]
     nenv_call = case["nenv_set"] if case.get("nenv_set") is not None else case["nenv"]
-    parts.append("pheno_agree [%s]\n     (phenotype %d %d taxa grp gvm %d (nrep_vec %d %s) %s %s %s %s)" % ("; ".join(irows), n, t, nenv_call, case["nenv"], nrep,
-                 sds[0], sds[1], sds[2], E.lst2(case["draws"], _q)))
-    parts.append("Z.eqb %s 0%%Z" % E.z(out["left"]))
-    parts.append("sl_eqb %s (pheno_cols tnames)" % E.lst(d["cols"], E.s))
-    parts.append("natl_eqb %s (nrep_vec %d %s)" % (E.lst(out["nrep_attr"], E.nat), case["nenv"], nrep))
+    head += "  let attr := nrep_attr_of %d %s %s in\n" % (case["nenv"], nrep, E.opt(case.get("nenv_set"), E.nat))
+    model = "(phenotype %d %d taxa grp gvm %d attr %s %s %s %s)" % (n, t, nenv_call, sds[0], sds[1], sds[2], E.lst2(case["draws"], _q))
+    parts.append("natl_eqb %s attr" % E.lst(out["nrep_attr"], E.nat))
     for i, k in enumerate(("sd_env", "sd_rep", "sd_err")):
         parts.append("ql_eqb %s (var_vec %d %s) && ql_eqb (map (fun s => s * s)%%Q %s) (var_vec %d %s)"
                      % (E.lst(out["var_set"][i], _qh), t, _vararg(case[k], True), sds[i], t, _vararg(case[k], True)))
+    if refused:                                                # the model refuses exactly when the stored nrep array is shorter than nenv
+        parts.append("(length attr <? %d)%%nat && pheno_refused\n     %s" % (nenv_call, model))
+        return "(" + head + "  " + "\n   && ".join(parts) + ")"
+    g = d.get("taxa_grp", [None] * d["nrow"])
+    irows = [E.tup(E.s(d["taxa"][i]), E.opt(g[i], E.z), E.z(d["env"][i]), E.z(d["rep"][i]), E.lst(d["vals"][i], _qh)) for i in range(d["nrow"])]
+    parts.append("pheno_agree [%s]\n     %s" % ("; ".join(irows), model))
+    parts.append("Z.eqb %s 0%%Z" % E.z(out["left"]))
+    parts.append("sl_eqb %s (pheno_cols tnames)" % E.lst(d["cols"], E.s))
     td = out["true_df"]
     if "exc" in td: parts.append("false")
     else:
